@@ -74,6 +74,10 @@ func checkPairWant(scen string, in In, want int) *mc.Violation {
 		}
 	default:
 		got = gen.Sign(version.Compare(a, b))
+		// the same pair asked again gets the same answer (whatever the library remembers about it)
+		if again := gen.Sign(version.Compare(a, b)); again != got {
+			return mc.V(scen, "sign-equals-policy-order", in, fmt.Sprint(want), fmt.Sprintf("%d the first time, %d when the same pair was compared again", got, again), features(in)...)
+		}
 	}
 	if got != want {
 		return mc.V(scen, "sign-equals-policy-order", in, fmt.Sprint(want), fmt.Sprint(got), features(in)...)
